@@ -194,7 +194,11 @@ func (m *CLIManager) Install(ctx context.Context, installOpts CLIInstallOptions)
 	}
 	// the clean up below removes the plugin directory, so the plugin cannot
 	// be installed from its own installation directory
-	if isSameDir(filepath.Dir(pluginExecutableFile), pluginDirPath) {
+	sourceFile := pluginExecutableFile
+	if resolved, err := filepath.EvalSymlinks(sourceFile); err == nil {
+		sourceFile = resolved
+	}
+	if isSameDir(filepath.Dir(sourceFile), pluginDirPath) {
 		return nil, nil, fmt.Errorf("failed to install plugin %s: the source %s is the installed plugin", pluginName, installOpts.PluginPath)
 	}
 	// clean up before installation, this guarantees idempotent for install
